@@ -253,9 +253,10 @@ Qed.
 (* (6) The concrete binary32 scanner (the extracted text replayed against the
    implementation, every dispatcher arm): the order hypotheses are theorems about
    Flocq's comparison (F32Order.v) and the layout hypotheses are discharged for every
-   well-formed input (ConcreteProofs.v); what remains are the two numeric facts about
-   the discretisation (C08), in the finitely checkable form above: conservativeness at
-   the bounds max() derives and monotonicity of scale between thr and a qualifying score. *)
+   well-formed input (ConcreteProofs.v); monotonicity of scale is a theorem for binary32
+   (coq/disc C08_scale_monotone_f32 + the sign of the factor, DiscLink.env_scale_mono);
+   what remains is the conservativeness of the pre-filter (C08) at the bounds max()
+   derives (the threshold and the scores of positions), in finitely checkable form. *)
 Theorem C03_concrete_max :
   forall (K C : nat) (pssm : list (list F32.t)) (sq : list nat) (wrap : nat) (v : cenv)
          (am : arm) (thr : F32.t) (B : nat),
@@ -265,7 +266,6 @@ Theorem C03_concrete_max :
     (forall i, i < ce_Lm v -> F32.ge (cscore v i) thr = true -> ce_scale v thr <= cdscore v i) ->
     (forall i j, i < ce_Lm v -> j < ce_Lm v -> F32.ge (cscore v i) (cscore v j) = true ->
                  ce_scale v (cscore v j) <= cdscore v i) ->
-    (forall i, i < ce_Lm v -> F32.ge (cscore v i) thr = true -> ce_scale v thr <= ce_scale v (cscore v i)) ->
     forall k : nat,
     exists (Y : list (nat * F32.t)) (r : option (nat * F32.t)),
       ce_take_max v am thr B k = Ok (Y, Ok r) /\
@@ -282,8 +282,11 @@ Theorem C03_concrete_max :
           (k = 0 -> forall i, i < ce_Lm v -> F32.eq (cscore v i) x = true -> i <= p)
       end.
 Proof.
-  intros K C pssm sq wrap v am thr B Hwf Henv HB Hcons Hconsp Hmono k.
+  intros K C pssm sq wrap v am thr B Hwf Henv HB Hcons Hconsp k.
   pose proof (env_Lm_le K C pssm sq wrap v Hwf Henv) as HLm.
+  assert (Hmono : forall i, i < ce_Lm v -> F32.ge (cscore v i) thr = true ->
+                            ce_scale v thr <= ce_scale v (cscore v i))
+    by (intros i _ Hg; exact (env_scale_mono K C pssm sq wrap v _ _ Henv Hg)).
   destruct (C03_max_after_prefix F32.t F32.ge F32.gt F32.eq F32.is_nan (ce_scale v)
               (ce_score_position v) (ce_score_rows v am) (ce_R v) (ce_Lm v) B thr (ce_C v)
               (cscore v) (cdscore v)
@@ -312,8 +315,6 @@ Theorem C03_concrete_max_explicit :
     (forall i j, i + length pssm <= length sq -> j + length pssm <= length sq ->
                  F32.ge (score_def K sq pssm i) (score_def K sq pssm j) = true ->
                  c_scale (ce_dm v) (score_def K sq pssm j) <= dscore_def K sq (d_data (ce_dm v)) i) ->
-    (forall i, i + length pssm <= length sq -> F32.ge (score_def K sq pssm i) thr = true ->
-               c_scale (ce_dm v) thr <= c_scale (ce_dm v) (score_def K sq pssm i)) ->
     forall k : nat,
     exists (Y : list (nat * F32.t)) (r : option (nat * F32.t)),
       ce_take_max v am thr B k = Ok (Y, Ok r) /\
@@ -330,7 +331,7 @@ Theorem C03_concrete_max_explicit :
                      F32.eq (score_def K sq pssm i) x = true -> i <= p)
       end.
 Proof.
-  intros K C pssm sq wrap v am thr B Hwf Henv HB Hc1 Hc2 Hc3 k.
+  intros K C pssm sq wrap v am thr B Hwf Henv HB Hc1 Hc2 k.
   pose proof (env_Lm K C pssm sq wrap v Henv) as HLm.
   assert (HM : 1 <= length pssm) by (destruct Hwf as (_ & _ & HM & _); exact HM).
   assert (Hiff : forall i, i < ce_Lm v <-> i + length pssm <= length sq) by (intros i; rewrite HLm; lia).
@@ -341,7 +342,6 @@ Proof.
   { intros i Hi Hg. rewrite (Hs i Hi) in Hg. rewrite (Hd i Hi). apply Hc1; auto. now apply Hiff. }
   { intros i j Hi Hj Hg. rewrite (Hs i Hi), (Hs j Hj) in Hg. rewrite (Hs j Hj), (Hd i Hi).
     apply Hc2; auto; now apply Hiff. }
-  { intros i Hi Hg. rewrite (Hs i Hi) in Hg. rewrite (Hs i Hi). apply Hc3; auto. now apply Hiff. }
   exists Y, r. split; [exact Ht|].
   destruct r as [[p x]|].
   - destruct Hp as ((A1 & A2 & A3) & Hx & D & E).
@@ -352,18 +352,16 @@ Proof.
   - intros i Hi Hg. apply Hiff in Hi. rewrite <- (Hs i Hi) in Hg. now apply Hp.
 Qed.
 
-(* and with the three numeric hypotheses reduced to property C08's own two conditions,
-   through the theorems of the discretisation group (coq/disc, C08_scale_monotone_f32:
-   scale is monotone in binary32 when the sign bit of the factor is clear): (a) the
-   factor's sign bit is clear (set only for the signed-zero matrices of known finding
-   F14b), (b) C08's main clause at every position: byte score >= byte image of the score *)
+(* and with the numeric hypotheses reduced to property C08's own main clause at every
+   position (byte score >= byte image of the score), through the theorems of the
+   discretisation group (coq/disc, C08_scale_monotone_f32: scale is monotone in binary32
+   when the sign bit of the factor is clear; since the repair of F14b it always is) *)
 Theorem C03_concrete_max_c08 :
   forall (K C : nat) (pssm : list (list F32.t)) (sq : list nat) (wrap : nat) (v : cenv)
          (am : arm) (thr : F32.t) (B : nat),
     wf_input K C pssm sq wrap ->
     c_env K C pssm sq wrap = Ok v ->
     1 <= B ->
-    factor_sign_clear (ce_dm v) = true ->
     (forall i, i + length pssm <= length sq ->
                c_scale (ce_dm v) (score_def K sq pssm i) <= dscore_def K sq (d_data (ce_dm v)) i) ->
     forall k : nat,
@@ -382,11 +380,11 @@ Theorem C03_concrete_max_c08 :
                      F32.eq (score_def K sq pssm i) x = true -> i <= p)
       end.
 Proof.
-  intros K C pssm sq wrap v am thr B Hwf Henv HB Hsign Hmain k.
+  intros K C pssm sq wrap v am thr B Hwf Henv HB Hmain k.
+  pose proof (env_sign_clear K C pssm sq wrap v Henv) as Hsign.
   apply (C03_concrete_max_explicit K C pssm sq wrap v am thr B Hwf Henv HB).
   - intros i Hi Hg. exact (c_scale_transfer (ce_dm v) _ thr _ Hsign (Hmain i Hi) Hg).
   - intros i j Hi Hj Hg. exact (c_scale_transfer (ce_dm v) _ _ _ Hsign (Hmain i Hi) Hg).
-  - intros i Hi Hg. exact (c_scale_mono (ce_dm v) _ thr Hsign Hg).
 Qed.
 
 Check C03_max_none_iff :
@@ -535,7 +533,7 @@ Example C03_concrete_nonvacuous :
 Proof.
   intros am B k HB.
   exact (C03_concrete_max 5 32 Ex.pssm Ex.sq 2 Ex.env am Ex.thr B Ex.wf Ex.env_ok HB
-           Ex.cons_thr Ex.cons_pos Ex.mono_thr k).
+           Ex.cons_thr Ex.cons_pos k).
 Qed.
 
 (* and what it computes there: the best of 17 qualifying positions is 4.0, attained at
@@ -553,10 +551,9 @@ Example C03_concrete_runs :
   ce_max_after Ex.env Avx2 Ex.thr 1 17 = Ok None.
 Proof. vm_compute. repeat split; reflexivity. Qed.
 
-(* ... and the two C08 conditions of C03_concrete_max_c08 hold on that instance *)
+(* ... and the C08 condition of C03_concrete_max_c08 holds on that instance *)
 Example C03_concrete_c08_nonvacuous :
-  factor_sign_clear (ce_dm Ex.env) = true /\
-  (forall i, i + length Ex.pssm <= length Ex.sq ->
-             c_scale (ce_dm Ex.env) (score_def 5 Ex.sq Ex.pssm i)
-             <= dscore_def 5 Ex.sq (d_data (ce_dm Ex.env)) i).
-Proof. split; [exact Ex_sign_clear|exact Ex_main]. Qed.
+  forall i, i + length Ex.pssm <= length Ex.sq ->
+            c_scale (ce_dm Ex.env) (score_def 5 Ex.sq Ex.pssm i)
+            <= dscore_def 5 Ex.sq (d_data (ce_dm Ex.env)) i.
+Proof. exact Ex_main. Qed.
